@@ -232,6 +232,19 @@ func execOpCase(prop string, sp *opCase) run.Result {
 		rounds = 2
 	}
 	mark := r.Log.Len()
+	if sp.Cfg.Planner == "cached" && tags["f:multi-op"] && sp.Op.OperationName != "" {
+		// history: warm the plan cache with the *other* operation of the same document first
+		for _, o := range doc.Operations {
+			if o.Name != "" && o.Name != sp.Op.OperationName {
+				other := sp.Op
+				other.OperationName = o.Name
+				other.Variables = nil
+				r.Query(&other)
+				res.Counters["cache_warmed_with_sibling_operation"] = 1
+				break
+			}
+		}
+	}
 	for round := 0; round < rounds; round++ {
 		hr := r.Query(&sp.Op)
 		if v := judgeAgainstRef(hr, refData); v != nil {
